@@ -91,6 +91,12 @@ SCENARIOS = [
     ("stack-overflow-is-catchable",
      'fn r(n) { return r(n + 1); }\ntry { r(0); } catch e { print(type(e) == IndexError); print(e.context); }',
      ["true", "Stack overflow."], "ok"),
+    ("uncaught-through-callers-finally",
+     'fn thrower() {\n  throw "x";\n}\nfn mid() {\n  try {\n    thrower();\n  } finally {\n    print("fin");\n  }\n}\nmid();',
+     ["fin"], ("err", "RuntimeError", "Unhandled exception: x")),
+    ("uncaught-builtin-failure-after-a-caught-throw",
+     'fn thrower() {\n  throw "x";\n}\ntry { thrower(); } catch e { print("caught"); }\nvar z = nil + 1;',
+     ["caught"], ("err", "TypeError", "Unhandled TypeError: Binary operands must be two numbers or two strings.")),
     ("catch-variable-scoped",
      'var e = "outer"; try { throw "t"; } catch e { print(e); } print(e);',
      ["t", "outer"], "ok"),
